@@ -15,7 +15,6 @@
 package bfe_proxy
 
 import (
-	"fmt"
 	"io"
 	"net"
 	"sync"
@@ -193,19 +192,17 @@ func (p *Conn) checkProxyHeader() error {
 	}
 
 	// initial real src/dst address
-	srcAddr := net.JoinHostPort(hdr.SourceAddress.String(), fmt.Sprintf("%d", hdr.SourcePort))
-	p.srcAddr, err = net.ResolveTCPAddr(hdr.TransportProtocol.String(), srcAddr)
-	if err != nil { /* never go here */
-		p.Close()
-		return err
+	//
+	// Only PROXY commands over IPv4/IPv6 carry addresses to use. For LOCAL commands and
+	// for unknown/unspecified/unix families the real socket addresses are kept, as
+	// required by the specification.
+	proto := hdr.TransportProtocol
+	if hdr.Command.IsLocal() || !(proto.IsIPv4() || proto.IsIPv6()) ||
+		hdr.SourceAddress == nil || hdr.DestinationAddress == nil {
+		return nil
 	}
-
-	dstAddr := net.JoinHostPort(hdr.DestinationAddress.String(), fmt.Sprintf("%d", hdr.DestinationPort))
-	p.dstAddr, err = net.ResolveTCPAddr(hdr.TransportProtocol.String(), dstAddr)
-	if err != nil { /* never go here */
-		p.Close()
-		return err
-	}
+	p.srcAddr = &net.TCPAddr{IP: hdr.SourceAddress, Port: int(hdr.SourcePort)}
+	p.dstAddr = &net.TCPAddr{IP: hdr.DestinationAddress, Port: int(hdr.DestinationPort)}
 
 	return nil
 }
